@@ -120,10 +120,17 @@ func toksFromIon(as []ion.SymbolToken) []Tok {
 	return out
 }
 
+// foreignSID, when not zero, is attached to every token that has text: a token read from another stream carries
+// the ID it had there, which means nothing in the stream being written (writer mode "binsid").
+var foreignSID int64
+
 func tokToIon(t Tok) ion.SymbolToken {
 	switch t.K {
 	case "text":
 		s := string(t.Text)
+		if foreignSID != 0 {
+			return ion.SymbolToken{Text: &s, LocalSID: foreignSID}
+		}
 		return ion.SymbolToken{Text: &s, LocalSID: ion.SymbolIDUnknown}
 	case "sid":
 		return ion.SymbolToken{LocalSID: t.Sid}
